@@ -1296,7 +1296,10 @@ static std::string b_step(const std::vector<std::string>& w) {
 }
 // OPS-END
 
+static void on_cpu_timeout(int) { static const char m[] = "CPU-TIMEOUT (900 s of CPU time)\n"; (void)!write(2, m, sizeof(m) - 1); _exit(97); }
+
 int main() {
+  vh::cpu_alarm(900, on_cpu_timeout);   // a verdict of "timeout" is based on CPU time, never on wall-clock time of a loaded machine
   g_live_heap = new std::unordered_set<void*>();
   g_live_map = new std::unordered_map<void*, size_t>();
   g_live_fd = new std::unordered_set<int>();
